@@ -138,3 +138,9 @@ attrs(effort=Opt(Real), start=Opt(DT), end=Opt(DT), scheduled=Opt(Bool), forward
 # the resource scenario object of resource r in scenario sc
 ghost("RSof", ["r", "sc"], "some(some(r.data)[sc])")
 ghost("Eff", ["r", "sc"], "ite(attr(r, 'efficiency', sc) is None, 1.0, some(attr(r, 'efficiency', sc)))")
+
+# separation of two resource scenarios' ledgers: different dict objects, and no portion list shared
+ghost("RSsep", ["a", "b"],
+      "a.slotSecondsUsed != b.slotSecondsUsed and a.slotTaskUsage != b.slotTaskUsage and "
+      "forall(s, forall(t, implies(s in a.slotTaskUsage and t in b.slotTaskUsage, a.slotTaskUsage[s] != b.slotTaskUsage[t])))")
+ghost("LedgerSame", ["o"], "forall(s, used(o, s) == old(used(o, s)) and usage(o, s) == old(usage(o, s)))")
